@@ -69,6 +69,10 @@ CHECKS = {
          "Under none / input / input-output conversion, text with LF, CRLF, missing final newline and binary content (NUL, lone CR) is written by the user and by checkouts; snapshots must store the normalised bytes and checkouts must write CRLF only for text under input-output, byte-identical otherwise (model mirrors eol.rs below the 8 KiB probe).",
          "Contents stay below the 8 KiB probe boundary.",
          "§4 C29"),
+ "C15": ("crashsim", "fault_enumeration", "fault enumeration: real SIGKILL from a ptrace supervisor at the entry of every file-system-mutating syscall (plus torn writes) of the real jj binary, recovery oracle in fresh processes",
+         "For each command of each seeded workload (new, describe, commit, squash, abandon, bookmark set, edit, undo, restore, rebase, workspace add; git, colocated-git and simple backends) the unguarded jj binary is re-executed from a snapshot of the directory and killed at the k-th mutating syscall, for every k (thorough) or for all publication-critical k plus a seeded sample (quick). After each kill fresh processes check: op log loads (R1), no earlier operation lost (R2), head is the old one or one the command publishes (R3), every object reachable from every logged operation loads through jj-lib and git fsck is clean (R4), workspace update-stale + status succeed and every file content on disk before the command is on disk or in a recorded working-copy commit (R5).",
+         "Process-kill model only (no power loss / lost page cache). Kill points of one execution are enumerated completely; workloads are sampled by seed. Residual nondeterminism of the tracee can cost replay exactness, never a false alarm (any kill instant is a legal crash).",
+         "§3.3, §4 C15"),
  "C21": ("tablesim", "exploration", "deterministic simulation: seeded baton scheduler over the table store's file-system primitives, crash and ineffective-lock faults, key/value reference model",
          "Seeded search over interleavings of 2-4 simulated processes (lock-less saves, locked saves, readers with reload) at the real TableStore's list/load/persist/add-head/remove-head/lock steps on tmpfs, with process crashes and ineffective locks; oracle is a map of completed saves (every completed save's entries present, later sequential save wins, heads never empty, reload does not change lookups). Sampling, not proof: the right level because the property quantifies over schedules the suite cannot control.",
          "Trusts: atomicity of readdir/create/unlink/rename as single steps; the hook points sit inside the primitives; HashMap order does not reach the event log (checked by the determinism sweep). Three known findings (known_findings.jsonl) are reported as KNOWN-FINDING and not as violations.",
@@ -76,6 +80,7 @@ CHECKS = {
 }
 
 ENGINES = {
+ "crashsim": ("sim/src/engines/crashsim.rs + sim/src/ptrace.rs", "ptrace supervisor killing the real jj binary at every write syscall + recovery oracle"),
  "wcsim": ("sim/src/engines/wcsim.rs", "working copy vs. an editing user under a simulated coarse file-system clock"),
  "reposim": ("sim/src/engines/reposim.rs", "concurrent jj processes on one repository: baton scheduler at file-system primitives + crash / I/O error / lock / clock faults + model-based monitors"),
  "tablesim": ("sim/src/engines/tablesim.rs", "stacked tables under concurrent writers: baton scheduler + crash/lock faults"),
